@@ -354,6 +354,20 @@ func deserializePaymentIndex(r io.Reader) (lntypes.Hash, error) {
 func (p *KVStore) RegisterAttempt(_ context.Context, paymentHash lntypes.Hash,
 	attempt *HTLCAttemptInfo) (*MPPayment, error) {
 
+	// An attempt without a hash of its own is locked to the payment hash.
+	// Store it under that hash like the SQL store does: the serialized
+	// format only has room for the first hop amount and the first hop wire
+	// records of the route behind the hash, without one they'd be dropped.
+	if attempt.Hash == nil {
+		log.Errorf("RegisterAttempt: attempt %d has nil hash, "+
+			"falling back to payment identifier %x",
+			attempt.AttemptID, paymentHash)
+
+		withHash := *attempt
+		withHash.Hash = &paymentHash
+		attempt = &withHash
+	}
+
 	// Serialize the information before opening the db transaction.
 	var a bytes.Buffer
 	err := serializeHTLCAttemptInfo(&a, attempt)
